@@ -301,7 +301,8 @@ class ModuleGet(Contract):
 
 
 class ModuleGetattr(Contract):
-    """Module.__getattr__(key) for a public key: the namespace object if present (else ordinary lookup)."""
+    """Module.__getattr__(key) for any key but Python's __dunder__ names: the namespace object if present (else ordinary
+    lookup)."""
     key = "hdl21.module:Module.__getattr__"
     props = ("C18",)
     raises = (AttributeError,)
@@ -314,6 +315,16 @@ class ModuleGetattr(Contract):
             st.assume(z3.Not(z3.PrefixOf(z3.StringVal("_"), key.z)))
             return {"self": m, "key": key}
         yield Scenario("public-key", setup)
+
+        def setup_(eng, st):
+            # a name with a leading underscore that is not one of Python's __dunder__ names: reachable the same way
+            eng.field_classes.update(FIELD_CLASSES)
+            m = sym_ref(st, "m", (Module,))
+            key = SStr(z3.String("key"))
+            st.assume(z3.PrefixOf(z3.StringVal("_"), key.z))
+            st.assume(z3.Not(z3.And(z3.PrefixOf(z3.StringVal("__"), key.z), z3.SuffixOf(z3.StringVal("__"), key.z))))
+            return {"self": m, "key": key}
+        yield Scenario("underscore-key", setup_)
 
     def p_val(self, eng, st0, st, a, res):
         v = st0.heap.get("namespace", a.self.z)[zstr(a.key)]
